@@ -62,6 +62,10 @@ def part_e2e(ctx, part):
                 part.nontrivial.add(src + str(pr[0]))
             if g is not None and want <= g <= (want | opt):
                 part.agreed += 1
+            elif pr[1] == "call_before_def" and g is not None and g and g <= (want | opt):
+                part.count("call_before_def_narrow")
+                part.failures.append(Failure("call_before_definition", "the value of a call written before the method's definition lacks variants that later call sites add",
+                                             {"shape": "dbtp of a call placed before the def, result depending on a parameter"}))
             else:
                 if methgen.round_heuristic_shape(pr) or any(methgen.round_heuristic_shape(q) for q in probes if q[2] is pr[2]):
                     part.count("round_heuristic")
@@ -125,10 +129,14 @@ def part_keyword_prefix_names(ctx, part):
 
 PARTS = [c09.part_tyops_corr, c14.part_sorters, part_e2e, part_keyword_prefix_names, part_body_operations]
 
+CALL_BEFORE_DEF = "dbtp um2(1.5, \"s\", k2: 1)\ndef um2(p20, p21, k2:)\n  if p20\n    return \"s\"\n  end\n  p21\nend\ndbtp um2(1, :a, k2: 1)\n"
 ROUND_WITNESS = "def early_caller\n  um1(1, 1.5, \"s\")\n  1\nend\ndef um1(p0, p1, p2)\n  dbtp p2\n  p0\nend\num1(:a, :a, 1)\nearly_caller()\n"
 
 
 def replay_finding(ctx, k):
+    if k["id"] == "C15-call-before-def":
+        x, got = run(CALL_BEFORE_DEF)
+        return methgen.parse((got.get(1) or [None])[0]) != methgen.parse((got.get(8) or [None])[0])
     if k["id"] == "C15-round-heuristic":
         x, got = run(ROUND_WITNESS)
         return "type mismatch" in x.out
